@@ -253,6 +253,44 @@ example : ∃ inv : Inv,
     detModPlain inv 101 { p := 101, indices := [], basis := [], factors := [] } [[1, 2], [2, 4]] = some 0 :=
   ⟨fun a p => some ((List.range p).find? (fun i => a * i % p = 1)), by decide, by decide⟩
 
+/-- the integer matrix of a list of integer rows -/
+def matZ (n : Nat) (mat : List (List Int)) : Matrix (Fin n) (Fin n) Int :=
+  fun t c => (mat.getD t []).getD c 0
+
+/-- **Exact integer determinant with its sign** (reference pipeline of `det_matz`) — PARTIAL in the
+same sense as `echelon_det_partial` (plain-arithmetic reference builder, partial correctness) and
+with the prime list and the size bound as inputs (the prime walk only needs pairwise coprime moduli
+`> 1`; the bound `-P < 2·det ≤ P` is what the rounded `f64` estimate `60·#primes ≥ bits` is meant to
+guarantee and is NOT derived from it: floating point is not modelled). If every modulus `p_i` yields
+a residue `detModPlain … = some m_i`, then the CRT reconstruction `crt(m, p)` returns exactly the
+determinant of the integer matrix (Mathlib `Matrix.det` over `ℤ`), sign included. -/
+theorem det_exact_partial (inv : Inv) (hinv : InvSpec inv) (n : Nat) (hn : 0 < n) (mat : List (List Int))
+    (hlen : mat.length = n) (hrows : ∀ r ∈ mat, r.length = n)
+    (modp primes : List Nat) (hl : modp.length = primes.length)
+    (hp : ∀ p ∈ primes, 1 < p) (hcop : primes.Pairwise Nat.Coprime)
+    (hm : ∀ m ∈ modp, (m : Int) < W64)
+    (hres : ∀ i (h1 : i < modp.length) (h2 : i < primes.length),
+      detModPlain inv primes[i] { p := primes[i], indices := [], basis := [], factors := [] } mat = some modp[i])
+    (hfit : (modp.length : Int) * (W64 * ((primes.prod : Nat) : Int)) < I4096LIM)
+    (hd1 : -((primes.prod : Nat) : Int) < 2 * (matZ n mat).det)
+    (hd2 : 2 * (matZ n mat).det ≤ ((primes.prod : Nat) : Int)) :
+    crtDense inv modp primes = some (matZ n mat).det := by
+  apply crt_symmetric inv hinv modp primes _ hl hp hcop hm _ hfit hd1 hd2
+  intro i h1 h2
+  have h := echelon_det_partial inv primes[i] n hn mat hlen hrows modp[i] (hres i h1 h2)
+  -- the determinant over Z/p is the image of the integer determinant
+  have hmap : matOf primes[i] n mat = (matZ n mat).map (Int.castRingHom (ZMod primes[i])) := by
+    ext t c
+    simp [matOf, matZ, vecI, Matrix.map_apply]
+  have hdetmap := (Int.castRingHom (ZMod primes[i])).map_det (matZ n mat)
+  rw [RingHom.mapMatrix_apply] at hdetmap
+  rw [hmap, ← hdetmap] at h
+  have h2' : (((modp[i] : Nat) : Int) : ZMod primes[i]) = (((matZ n mat).det : Int) : ZMod primes[i]) := by
+    simpa using h
+  rw [ZMod.intCast_eq_intCast_iff_dvd_sub] at h2'
+  have : ((primes[i] : Nat) : Int) ∣ -((matZ n mat).det - ((modp[i] : Nat) : Int)) := (dvd_neg).mpr h2'
+  simpa using this
+
 /-! ### Smith normal form
 
 `rowSpan h n M` (Ymq/Lemmas/SnfBasic.lean) is the `Z/h`-module generated by the rows of `M` in
